@@ -4,6 +4,7 @@ import PercevalModel.Model.C11Lists
 import PercevalModel.Model.C11Heur
 import PercevalModel.Model.C11Regroup
 import PercevalModel.Model.C11Deep
+import PercevalModel.Model.C11Chain
 
 open Lean PM PM.Proto PM.C11
 
@@ -414,6 +415,24 @@ def doDeepCopy (j : Json) : Except String Json := do
       ("copyAfter", matJson ((cp.mutate a f).erase.UV GQ.I))])
   | .error _ => return Json.mkObj base
 
+/-! histories of transformations on one object (`Model/C11Chain.lean`) -/
+
+def stepOf (j : Json) : Except String Step :=
+  match j with
+  | Json.arr #[Json.str "inv", v, h] => do pure (.inv (← v.getBool?) (← h.getBool?))
+  | Json.arr #[Json.str "copy"] => pure .copy
+  | Json.arr #[Json.str "flat"] => pure (.flat none)
+  | Json.arr #[Json.str "flat", d] => do pure (.flat (some (← d.getNat?)))
+  | _ => throw "bad step"
+
+/-- `{"op": "chain", "tree": …, "steps": [["inv", v, h] | ["copy"] | ["flat"] | ["flat", depth], …]}`: matrix and
+leaf ranges of the object after the whole history -/
+def doChain (j : Json) : Except String Json := do
+  let steps ← (← arrOf j "steps").toList.mapM stepOf
+  let c ← cmpOf (← j.getObjVal? "tree")
+  let ci := chainCmp steps c
+  return Json.mkObj [("U", matJson (ci.UV GQ.I)), ("flat", flatJson ci)]
+
 def handle (j : Json) : Json :=
   match (do
     let op ← strOf j "op"
@@ -426,6 +445,7 @@ def handle (j : Json) : Json :=
     | "step" => doStep j
     | "heur" => doHeur j
     | "deepcopy" => doDeepCopy j
+    | "chain" => doChain j
     | _ => throw "unknown op" : Except String Json) with
   | .ok r => r
   | .error e => errJson e
